@@ -8,31 +8,34 @@
   findings live (KF-C10-*: several components of one type, repeated properties, TZID values):
   for such files `check_from_indexes` and `check` differ, which the harness demonstrates on
   the real code; the full statement is therefore kept as `index_transparent_partial`.
+
+  `Theorems/C10Ical.lean` instantiates the parameters with the model of `icalendar.py` and
+  discharges `AgreeOn` for simple calendar objects and well-formed filters.
 -/
 import Xandikos.Store.Index
 
 namespace Xandikos.Theorems.C10
 open Xandikos Xandikos.Store.Index
 
-variable {F : Type}
+variable {F V : Type}
 
 /-- every cached value list is what the file yields for the index's current key set -/
-def CacheInv (P : Params F) (idx : MemIndex) : Prop :=
+def CacheInv (P : Params F V) (idx : MemIndex V) : Prop :=
   ∀ e v, idx.vals[e]? = some v → v = P.getIdx e idx.keys
 
 /-- a key set covers the filter: each AND-group has one of its OR-options in it -/
-def Covers (P : Params F) (f : F) (ks : List String) : Prop :=
+def Covers (P : Params F V) (f : F) (ks : List String) : Prop :=
   ∀ g ∈ P.keysOf f, ∃ k ∈ g, k ∈ ks
 
 /-- the index-side evaluator agrees with the direct one on blob `e`, whichever covering key
     sets the index happens to hold (`avail`) and hands over (`sub ⊆ avail`, or all of them) -/
-def AgreeOn (P : Params F) (f : F) (e : String) : Prop :=
+def AgreeOn (P : Params F V) (f : F) (e : String) : Prop :=
   ∀ avail, Covers P f avail →
     P.checkIdx f (P.getIdx e avail) = P.checkNaive f e ∧
     ∀ sub, (∀ k ∈ sub, k ∈ avail) → Covers P f sub →
       P.checkIdx f (restrict (P.getIdx e avail) sub) = P.checkNaive f e
 
-theorem iterIndexes_keys (P : Params F) (f : F) (keys : List String) (idx : MemIndex)
+theorem iterIndexes_keys (P : Params F V) (f : F) (keys : List String) (idx : MemIndex V)
     (files : List (String × String)) : (iterIndexes P f keys idx files).1.keys = idx.keys := by
   induction files generalizing idx with
   | nil => rfl
@@ -44,7 +47,7 @@ theorem iterIndexes_keys (P : Params F) (f : F) (keys : List String) (idx : MemI
     · simp only []; rw [ih]
 
 /-- the index-based iteration returns what the naive one returns, and keeps the cache exact -/
-theorem iterIndexes_eq_naive (P : Params F) (f : F) (keys : List String) (idx : MemIndex)
+theorem iterIndexes_eq_naive (P : Params F V) (f : F) (keys : List String) (idx : MemIndex V)
     (files : List (String × String)) (hinv : CacheInv P idx)
     (hsub : ∀ k ∈ keys, k ∈ idx.keys) (hcov : Covers P f keys)
     (hag : ∀ p ∈ files, AgreeOn P f p.2) :
@@ -147,7 +150,7 @@ theorem groups_spec (avail : List String) (thr : Nat) (groups : List (List Strin
 
 /-- what `find_present_keys` guarantees when it chooses the index path, and what it does to
     the index otherwise -/
-theorem findPresentKeys_spec (s : IState) (necessary : List (List String))
+theorem findPresentKeys_spec (s : IState V) (necessary : List (List String))
     (hne : ∀ g ∈ necessary, g ≠ []) :
     (∀ ks, (findPresentKeys s necessary).2 = some ks →
         (findPresentKeys s necessary).1.idx = s.idx ∧ (∀ k ∈ ks, k ∈ s.idx.keys) ∧
@@ -178,7 +181,7 @@ theorem findPresentKeys_spec (s : IState) (necessary : List (List String))
     sequence of earlier queries and writes, with any threshold — a query returns exactly what
     evaluating the filter against the current contents of every resource gives, provided the
     two evaluators agree on those contents; and the machinery stays in such a state. -/
-theorem index_transparent_partial (P : Params F) (s : IState) (f : F) (files : List (String × String))
+theorem index_transparent_partial (P : Params F V) (s : IState V) (f : F) (files : List (String × String))
     (hinv : CacheInv P s.idx) (hne : ∀ g ∈ P.keysOf f, g ≠ [])
     (hag : ∀ p ∈ files, AgreeOn P f p.2) :
     (iterWithFilter P s f files).2 = iterNaive P f files ∧
@@ -207,7 +210,7 @@ theorem index_transparent_partial (P : Params F) (s : IState) (f : F) (files : L
 
 /-- a history: queries (each with the listing it runs against — writes in between may have
     changed it arbitrarily) -/
-def runQueries (P : Params F) (s : IState) : List (F × List (String × String)) → IState × List (List String)
+def runQueries (P : Params F V) (s : IState V) : List (F × List (String × String)) → IState V × List (List String)
   | [] => (s, [])
   | (f, files) :: rest =>
     let (s₁, out) := iterWithFilter P s f files
@@ -217,7 +220,7 @@ def runQueries (P : Params F) (s : IState) : List (F × List (String × String))
 /-- **No history is observable**: starting from a fresh store, after any sequence of queries
     interleaved with arbitrary writes, every answer is the naive answer for the contents at
     that moment. -/
-theorem no_history_is_observable (P : Params F) (thr : Nat) (qs : List (F × List (String × String)))
+theorem no_history_is_observable (P : Params F V) (thr : Nat) (qs : List (F × List (String × String)))
     (hne : ∀ q ∈ qs, ∀ g ∈ P.keysOf q.1, g ≠ [])
     (hag : ∀ q ∈ qs, ∀ p ∈ q.2, AgreeOn P q.1 p.2) :
     (runQueries P { idx := {}, mgr := { threshold := thr } } qs).2 = qs.map fun q => iterNaive P q.1 q.2 := by
@@ -239,7 +242,7 @@ theorem no_history_is_observable (P : Params F) (thr : Nat) (qs : List (F × Lis
     that only sees the first value of a key disagrees with the direct one on a file with two
     components — the shape of the recorded finding KF-C10-multi-component. -/
 theorem full_statement_is_false :
-    ∃ (P : Params Unit) (files : List (String × String)),
+    ∃ (P : Params Unit String) (files : List (String × String)),
       (iterWithFilter P { idx := { keys := ["C=VCALENDAR/C=VEVENT/P=DTSTART"] } } () files).2
         ≠ iterNaive P () files := by
   refine ⟨{ keysOf := fun _ => [["C=VCALENDAR/C=VEVENT/P=DTSTART"]],
